@@ -24,13 +24,19 @@ THEOREMS = {
                                 ("BS.Props.C14", "BS.Props.C14.range_bytes")]),
     "C03": (["BS.Props.C03"], [("BS.Props.C03", "BS.Props.C03.accept_iff_strictly_newer"),
                                 ("BS.Props.C03", "BS.Props.C03.refused_step_is_noop")]),
-    "C05": (["BS.Props.C05"], [("BS.Props.C05", "BS.Props.C05.repair_yields_written_prefix"),
+    "C04": (["BS.Props.C04"], [("BS.Props.C04", "BS.Props.C04.reopen_preserves"),
+                                ("BS.Props.C04", "BS.Props.C04.repair_is_identity_on_intact"),
+                                ("BS.Props.C04", "BS.Props.C04.last_meta_timestamp_exact"),
+                                ("BS.Props.C04", "BS.Props.C04.window_larger_than_overlap")]),
+    "C05": (["BS.Props.C05"], [("BS.Props.C05", "BS.Props.C05.open_recovers_written_prefix"),
+                                ("BS.Props.C05", "BS.Props.C05.repair_yields_written_prefix"),
                                 ("BS.Props.C05", "BS.Props.C05.repair_unconditional_ge4"),
                                 ("BS.Props.C05", "BS.Props.C05.tailClean_needed_counterexample"),
                                 ("BS.Props.C05", "BS.Props.C05.fourth_repair_stage_is_dead"),
                                 ("BS.Props.C05", "BS.Props.C05.rebuilt_index_of_repaired")]),
     "C06": (["BS.Props.C06"], [("BS.Props.C06", "BS.Props.C06.incremental_index_exact"),
                                 ("BS.Props.C06", "BS.Props.C06.rebuild_equals_incremental"),
+                                ("BS.Props.C06", "BS.Props.C06.prior_index_state_irrelevant"),
                                 ("BS.Props.C06", "BS.Props.C06.chunk_size_irrelevant"),
                                 ("BS.Props.C06", "BS.Props.C06.rebuilt_file_bytes")]),
     "C12": (["BS.Props.C12"], [("BS.Props.C12", "BS.Props.C12.len_is_count"),
